@@ -24,7 +24,7 @@ import (
 )
 
 type sop struct {
-	Kind string `json:"k"` // W or D
+	Kind string `json:"k"` // W, D or R (read by the client thread)
 	Key  uint64 `json:"key"`
 	Data string `json:"d,omitempty"`
 }
@@ -50,6 +50,16 @@ func sNewVolume() *storage.Volume {
 }
 
 func sDo(v *storage.Volume, o sop) string {
+	if o.Kind == "R" {
+		n := &needle.Needle{Id: types.NeedleId(o.Key), Cookie: schedCookie}
+		if _, err := v.SchedReadV(n, nil); err != nil {
+			if err == storage.ErrorNotFound || err == storage.ErrorDeleted {
+				return "unreadable"
+			}
+			return "error(" + err.Error() + ")"
+		}
+		return "data:" + string(n.Data)
+	}
 	if o.Kind == "W" {
 		n := &needle.Needle{Id: types.NeedleId(o.Key), Cookie: schedCookie, Data: []byte(o.Data)}
 		n.Checksum = needle.NewCRC(n.Data)
@@ -208,6 +218,9 @@ func Schedules(r *mc.Run, shard, n int) {
 	schedScratch = mc.TempDir("c04s")
 	defer os.RemoveAll(schedScratch)
 	al := []sop{{"W", 1, "ONE"}, {"D", 1, ""}, {"W", 2, "TWO"}, {"D", 3, ""}, {"W", 4, "four"}, {"W", 4, ""}}
+	// reads by the client racing with the round (added after seed C38c): a live untouched key and
+	// a key whose record moves in the compacted file must read the same in every interleaving
+	al = append(al, sop{"R", 1, ""}, sop{"R", 3, ""})
 	var cases []schedCase
 	for algo := 1; algo <= 2; algo++ {
 		for _, a := range al {
